@@ -1,5 +1,5 @@
 # replay of a bounded stand-in violation (C08): re-run native/c08_history.py
 import sys
-print("fock [['N2', 'D0', 'G1']]: running segment 0 of a valid history raised ValueError: axes don't match array")
+print("bosonic [['N2']]: running segment 0 of a valid history raised ValueError: matmul: Input operand 1 has a mismatch in its core dimension 0, with gufunc signature (n?,k),(k,m?)->(n?,m?) (size 6 is different from 10)")
 print('REPLAY-VIOLATION')
 sys.exit(1)
